@@ -100,6 +100,21 @@ pub fn check_c10_client(l: &Ledger) -> Vec<Violation> {
                 if s.p.class == wire::C_REQUEST {
                     continue;
                 }
+                // a correct FINGERPRINT must not make the client reject: without a credential mechanism a decodable
+                // response for an awaiting request (or an indication) whose first FINGERPRINT verifies is delivered,
+                // whatever an on-path party appended after it (C09: such attributes have no effect)
+                if s.fp == Verdict::Good && l.cfg.mech == Mech::None && crate::libtap::decodes(bytes) {
+                    let awaiting = s.p.class == wire::C_INDICATION
+                        || l.txs.iter().any(|t| t.id == s.p.txid && t.gen == st.gen && t.awaiting_before(st.idx));
+                    if awaiting && !matches!(st.result, CallResult::Ok) {
+                        out.push(v(
+                            "C10",
+                            format!("C10/message-with-valid-fingerprint-rejected({})", if s.p.attrs.last().map(|a| a.typ) == Some(wire::A_FINGERPRINT) { "fingerprint-last" } else { "attributes-after-fingerprint" }),
+                            st.idx,
+                            format!("step {}: a message whose FINGERPRINT verifies was rejected: {:?} [{}]", st.idx, st.result, fault),
+                        ));
+                    }
+                }
                 if s.fp != Verdict::Good {
                     let what = if s.fp == Verdict::Absent { "absent" } else { "wrong" };
                     let cls = ["request", "indication", "response", "response"][s.p.class as usize];
